@@ -1954,3 +1954,7 @@ MA('C19', 'sliced 2d geometry built from the translated detector position',
    'odl/tomo/geometry/parallel.py', 'Parallel2dGeometry.__init__',
    'det_pos_init = det_pos_init + translation', 'det_pos_init += translation',
    'R4m')
+MA('C20', 'last-place integer index of a product space element taken as p[i:i+1]',
+   'odl/space/pspace.py', 'ProductSpaceElement.__getitem__',
+   'idx = slice(idx, idx + 1 if idx != -1 else None)',
+   'idx = slice(idx, idx + 1)', 'R7f')
